@@ -4,6 +4,11 @@ import json, os
 V = os.path.dirname(os.path.dirname(os.path.abspath(__file__)))
 props = [json.loads(l) for l in open(os.path.join(V, 'properties.jsonl'))]
 CHECKS = {
+ 'C07': dict(
+   text="Coq proof, by induction over arbitrary expression trees (all 18 binary and 4 unary operators, casts, ?:, comma, 9 integer types, any depth): the type the compiler assigns (get_common_type by size + the casts add_type/unary() insert) is the C11 type (rank-based promotions and usual arithmetic conversions), and whenever C11 defines the value, the model of eval2 (int64_t wrap-around arithmetic, the (uint64_t) paths, narrow_to_type at every node, eval_div) yields exactly that value; unevaluated operands are not evaluated; a defined expression never reaches a division diagnostic or a host-undefined shift. Tie: every generated expression defined per the Coq spec is compiled into a static initializer (value), sizeof/typeof (type), enum value, array bound, case label, bit-field width and _Alignas positions and ALSO evaluated at run time on volatile operands - all must equal the spec value; undefined divisions must be diagnosed, not crashed on.",
+   note="Trusted: Coq kernel, no axioms; extraction + modelrun; the hand-written model Model/ConstFold.v (tied: static-initializer values = model values on every generated case). Implementation-defined choices fixed as gcc/chibicc fix them (signed narrowing wraps, >> arithmetic). Floating constant expressions belong to C02, address constants to C05; the parser from text to AST is tied by correspondence only.",
+   technique="Coq proof (structural induction; congruence modulo 2^64 + per-operator range lemmas) + differential evaluation (translation time vs run time vs proved spec) on generated expressions",
+   design="5.C07"),
  'C08': dict(
    text="Coq proofs: the offset arithmetic of struct_decl (align_to / straddling test / align_down, as modelled) places every member of every struct - any member list with bit-fields of any unit size and width, zero-width and unnamed bit-fields, _Alignas, aligned(n), packed - at the least position the declaratively stated psABI conditions allow, gives the struct the least-upper-bound alignment and the least size, members never overlap, a bit-field lies inside an aligned unit of its type; the switch of declspec(), regenerated from parse.c on every run, accepts every C11 6.7.2p2 specifier multiset in every order, interleaved with any other declaration specifiers, with the C11 type (verified permutation enumeration + vm_compute sweep). Tie: translator for declspec; generated aggregates (nesting, arrays, anonymous members, 8 bit-field base types, attributes) compared member by member (offsets, bit images) with the extracted model and with gcc; all specifier permutations compiled and probed.",
    note="Trusted: Coq kernel, no axioms; tools/gen_declspec.py; extraction + modelrun; gcc 12 as the other compiler. Excluded by the decidable predicate no_bad, with a proved witness that the exclusion is real: a bit-field crossing a unit boundary inside a packed struct (known finding), and packed unions (known finding). Declarator composition, typedef/typeof/enum, scalar sizes and __SIZEOF_*__ are covered by generated programs only; explicit alignment requests inside packed aggregates are not generated.",
